@@ -200,6 +200,11 @@ def _fresh_var():
     return HplVarReference('@Q')
 
 
+def _fresh_var_named(alias):
+    from hpl.ast import HplVarReference
+    return HplVarReference('@' + alias)
+
+
 def _fresh_this():
     from hpl.ast import HplThisMessage
     return HplThisMessage()
@@ -224,6 +229,30 @@ def run(ctx):
             W.publish(r)
         prev = root
         seq = []
+        if rng.random() < 0.12 and (getattr(root, 'is_expression', False) or getattr(root, 'is_predicate', False)):
+            # two replacement calls with one alias: the result of the first (on a bare reference) is a handed-out AST
+            # like any other; the second call must not touch it
+            from hpl import rewrite as RW
+            alias = gen.pick(rng, ('A', 'B', 'Zz'))
+            first = hplapi.outcome(gen.pick(rng, (lambda: RW.replace_this_with_var(_fresh_this(), alias),
+                                                   lambda: RW.replace_var_with_this(_fresh_var_named(alias), alias))))
+            if first[0] == 'ok' and hasattr(type(first[1]), '__attrs_attrs__'):
+                pub.add(first[1], 'result-of-a-replacement-on-a-bare-reference')
+                W.publish(first[1])
+                ctx.begin_case(set(base_feats) | {'api:replace_this_with_var', 'shape:same-alias-twice'})
+                hplapi.outcome(lambda: RW.replace_this_with_var(root, alias))
+                hplapi.outcome(lambda: RW.replace_var_with_this(root, alias))
+                ctx.evaluation('same-alias-twice|' + (A.shape(abs_e) if abs_e is not None else 'prop'), True)
+                ctx.count('same_alias_twice')
+                changed = pub.check()
+                if changed:
+                    label, what, r, snap = changed[0]
+                    ctx.violation('ast-mutated', {'input': text[:300], 'sequence': [f'replacement on a bare reference with alias {alias}',
+                                                                                  f'replace_this_with_var(input, {alias})'],
+                                                  'mutated': label, 'what': what,
+                                                  'difference': first_difference(snap, monitors.snapshot(r, with_ids=True))},
+                                  set(base_feats) | {'api:replace_this_with_var', 'out:structure-or-identity'})
+                    return
         for step in range(rng.randrange(1, 4)):
             k = rng.random()
             if k < 0.5:
